@@ -7,13 +7,16 @@ package absnfs
 //                    (entries, expiry ticks, the access list front to back, capacity, TTLs,
 //                    negative switch).  Values handed to Put and values returned by Get are
 //                    modified by the caller afterwards (copy isolation).
-//   TestVF_LRUConc : 2-3 goroutines x 3 calls on one cache (run under -race); call / ret
-//                    events, clock ticks, the cache before and after.
+//   TestVF_LRUConc : directed interleavings (a second call placed exactly between the two critical
+//                    sections of a Get, driven through the clock-read hook of vf_clock.go, no
+//                    change to cache.go) and then 2-3 goroutines x 3 calls on one cache, all run
+//                    under -race; call / ret events, clock ticks, the cache before and after.
 // The harness records; TLC decides (LRUCacheTrace, LRUCacheLin).
 
 import (
 	"os"
 	"reflect"
+	"runtime"
 	"sort"
 	"strings"
 	"sync"
@@ -515,6 +518,203 @@ func TestVF_LRUSeq(t *testing.T) {
 	vfWriteJSON(t, "lru_seq.summary.json", M{"has_invalidate_tree": vfLRUHasTree(), "histories": len(hists), "directed": ndirected, "nontrivial": nontrivial, "lines": tr.n, "samples": samples})
 }
 
+// ---------------------------------------------------------------- directed interleavings
+
+// vfLRUTryRLock reports whether a reader could enter now; with a reader parked inside the cache it
+// is false exactly when a writer has queued behind that reader (sync.RWMutex: a queued writer
+// already holds the writers' mutex, so it runs before any Lock() the parked reader issues later).
+func (c *vfLRUCache) vfLRUTryRLock() bool {
+	if c.kind == "attr" {
+		if c.ac.mu.TryRLock() {
+			c.ac.mu.RUnlock()
+			return true
+		}
+		return false
+	}
+	if c.dc.mu.TryRLock() {
+		c.dc.mu.RUnlock()
+		return true
+	}
+	return false
+}
+
+// vfLRUInterpose runs `outer` (a Get) on goroutine 1 and places `inner` (goroutine 2) between
+// outer's first and second critical section.  Get reads the clock for its expiry test while it
+// holds the read lock: the clock-read hook parks it there; inner is started and, being a writer,
+// queues on the cache's lock (or completes, if it only reads); outer is released, leaves its read
+// section, and its second section (recency update / removal of the expired entry) can only take
+// the write lock after inner.  The log gets call/ret events like any concurrent history; which
+// interleaving happened is not told to TLC, it has to find one.  Returns whether outer parked.
+func vfLRUInterpose(t *testing.T, c *vfLRUCache, outer, inner vfLRUOp, logEv func(M)) bool {
+	var armed int32 = 1
+	parked := make(chan struct{})
+	resume := make(chan struct{})
+	hook := func() {
+		if atomic.CompareAndSwapInt32(&armed, 1, 0) {
+			close(parked)
+			<-resume
+		}
+	}
+	vfClockHook.Store(&hook)
+	defer vfClockHook.Store(nil)
+	done1, done2 := make(chan struct{}), make(chan struct{})
+	logEv(M{"ev": "call", "g": 1, "o": outer})
+	go func() {
+		res := c.apply(outer)
+		logEv(M{"ev": "ret", "g": 1, "r": res})
+		close(done1)
+	}()
+	didPark := false
+	select {
+	case <-parked:
+		didPark = true
+	case <-done1: // the call never read the clock (key not cached): inner simply runs afterwards
+		atomic.StoreInt32(&armed, 0)
+	}
+	if inner.Op == "tick" {
+		vfClockAdvance(time.Duration(inner.N) * vfLRUTick)
+		logEv(M{"ev": "tick", "g": 2, "n": inner.N})
+		close(done2)
+	} else {
+		logEv(M{"ev": "call", "g": 2, "o": inner})
+		go func() {
+			res := c.apply(inner)
+			logEv(M{"ev": "ret", "g": 2, "r": res})
+			close(done2)
+		}()
+	}
+	if didPark {
+		deadline := time.Now().Add(10 * time.Second)
+	wait:
+		for {
+			select {
+			case <-done2:
+				break wait
+			default:
+			}
+			if !c.vfLRUTryRLock() {
+				break // inner is queued as a writer behind the parked Get
+			}
+			if time.Now().After(deadline) {
+				t.Fatalf("vf_lrucache: interposed call %v neither finished nor queued on the cache lock", inner)
+			}
+			runtime.Gosched()
+		}
+		close(resume)
+	}
+	<-done1
+	<-done2
+	return didPark
+}
+
+type vfLRUProbe struct {
+	kind      string
+	capN, ttl int
+	prefix    []vfLRUOp
+	outer     vfLRUOp
+	inner     vfLRUOp
+	after     []vfLRUOp
+	name      string
+}
+
+// vfLRUProbes enumerates: cache kind x state of the looked-up entry (fresh, expired, at the expiry
+// instant, negative fresh / expired) x room (spare capacity, or full with the entry least recently
+// used) x the call placed between the two sections of the Get.
+func vfLRUProbes(hasTree bool) []vfLRUProbe {
+	const k, other, fresh = "/a", "/ab", "/a/b"
+	var out []vfLRUProbe
+	for _, kind := range []string{"attr", "dir"} {
+		v1, v2 := "v1", "v2"
+		states := []string{"fresh", "expired", "boundary", "negfresh", "negexpired"}
+		if kind == "dir" {
+			v1, v2 = "d1", "d2"
+			states = states[:3]
+		}
+		inners := []vfLRUOp{
+			vfLRUMk("put", k, v2, 0, false), vfLRUMk("put", fresh, v2, 0, false), vfLRUMk("inv", k, "-", 0, false),
+			vfLRUMk("clear", "/", "-", 0, false), vfLRUMk("resize", "/", "-", 1, false), vfLRUMk("get", k, "-", 0, false),
+			vfLRUMk("tick", "/", "-", 1, false), vfLRUMk("updatettl", "/", "-", 1, false),
+		}
+		if kind == "attr" {
+			inners = append(inners, vfLRUMk("putneg", k, "-", 0, false), vfLRUMk("putneg", fresh, "-", 0, false),
+				vfLRUMk("configneg", "/", "-", 0, false), vfLRUMk("invneg", "/", "-", 0, false))
+		}
+		if hasTree {
+			inners = append(inners, vfLRUMk("invtree", k, "-", 0, false))
+		}
+		for _, st := range states {
+			for _, full := range []bool{false, true} {
+				for _, in := range inners {
+					p := vfLRUProbe{kind: kind, capN: 3, ttl: 2, name: st, outer: vfLRUMk("get", k, "-", 0, false), inner: in}
+					if kind == "attr" {
+						nttl := 2
+						if st == "negexpired" {
+							nttl = 1
+						}
+						p.prefix = append(p.prefix, vfLRUMk("configneg", "/", "-", nttl, true))
+					}
+					switch st {
+					case "fresh":
+						p.prefix = append(p.prefix, vfLRUMk("put", k, v1, 0, false))
+					case "expired":
+						p.prefix = append(p.prefix, vfLRUMk("put", k, v1, 0, false), vfLRUMk("tick", "/", "-", 3, false))
+					case "boundary":
+						p.prefix = append(p.prefix, vfLRUMk("put", k, v1, 0, false), vfLRUMk("tick", "/", "-", 2, false))
+					case "negfresh":
+						p.prefix = append(p.prefix, vfLRUMk("putneg", k, "-", 0, false))
+					case "negexpired":
+						p.prefix = append(p.prefix, vfLRUMk("putneg", k, "-", 0, false), vfLRUMk("tick", "/", "-", 2, false))
+					}
+					if full {
+						p.capN = 2
+						p.name += "-full"
+						p.prefix = append(p.prefix, vfLRUMk("put", other, v1, 0, false)) // the looked-up entry is now least recently used
+					}
+					p.after = []vfLRUOp{vfLRUMk("get", k, "-", 0, false), vfLRUMk("get", other, "-", 0, false), vfLRUMk("get", fresh, "-", 0, false)}
+					out = append(out, p)
+				}
+			}
+		}
+	}
+	return out
+}
+
+// vfLRURunProbes emits one history per probe; returns (histories, histories in which the Get parked).
+func vfLRURunProbes(t *testing.T, tr *vfTrace, samples *[]M) (int, int) {
+	probes := vfLRUProbes(vfLRUHasTree())
+	parkedN := 0
+	for i, p := range probes {
+		vfClockSet(vfLRUBase)
+		c := vfLRUNew(p.kind, p.capN, p.ttl)
+		for _, o := range p.prefix {
+			c.apply(o)
+		}
+		var mu sync.Mutex
+		events := []M{{"ev": "reset", "c": p.kind, "hist": 100000 + i, "name": "probe-" + p.name, "G": 2, "now": vfLRUNowTick(), "st": c.state()}}
+		logEv := func(e M) {
+			mu.Lock()
+			events = append(events, e)
+			mu.Unlock()
+		}
+		if vfLRUInterpose(t, c, p.outer, p.inner, logEv) {
+			parkedN++
+		}
+		for _, o := range p.after {
+			logEv(M{"ev": "call", "g": 1, "o": o})
+			res := c.apply(o)
+			logEv(M{"ev": "ret", "g": 1, "r": res})
+		}
+		events = append(events, M{"ev": "final", "now": vfLRUNowTick(), "st": c.state()})
+		for _, e := range events {
+			tr.Emit(e)
+		}
+		if i == 1 {
+			*samples = append(*samples, M{"kind": p.kind, "probe": p.name, "prefix": p.prefix, "get": p.outer, "between_its_sections": p.inner, "then": p.after})
+		}
+	}
+	return len(probes), parkedN
+}
+
 // ---------------------------------------------------------------- concurrent histories
 
 func TestVF_LRUConc(t *testing.T) {
@@ -525,6 +725,8 @@ func TestVF_LRUConc(t *testing.T) {
 	overlapped := 0
 	hasTree := vfLRUHasTree()
 	var samples []M
+	nprobes, nparked := vfLRURunProbes(t, tr, &samples)
+	overlapped += nparked
 	for h := 0; h < nh; h++ {
 		r := vfRand(seed, "lruconc"+string(rune('A'+h%26))+string(rune('a'+h/26%26))+string(rune('0'+h/676%10)))
 		kind := "attr"
@@ -665,5 +867,5 @@ func TestVF_LRUConc(t *testing.T) {
 			samples = append(samples, M{"kind": kind, "G": G, "plan": plan})
 		}
 	}
-	vfWriteJSON(t, "lru_conc.summary.json", M{"histories": nh, "overlapped": overlapped, "lines": tr.n, "samples": samples})
+	vfWriteJSON(t, "lru_conc.summary.json", M{"histories": nh + nprobes, "probes": nprobes, "probes_interposed": nparked, "overlapped": overlapped, "lines": tr.n, "samples": samples})
 }
